@@ -28,6 +28,15 @@ fn hostile_docs() -> Vec<Value> {
         json!(1e308),
         json!(5e-324),
         json!([1e308, 1e308, -1e308]),
+        json!([1e308, 1e308]),
+        json!([-1e308, -1e308, -1e308]),
+        json!([1.7976931348623157e308, 1.7976931348623157e308]),
+        json!([18446744073709551615u64, 18446744073709551615u64, 1]),
+        json!([-9223372036854775808i64, 9223372036854775807i64]),
+        json!([5e-324, -5e-324, 0.0, -0.0]),
+        json!(["a", "é", "\u{1F600}", ""]),
+        json!([[], [[]], {}, null, true, "s", 1]),
+        json!({"k": [1e308, 1e308], "s": "\u{10FFFF}", "n": -9223372036854775808i64, "o": {"": null}}),
         json!([["a", "b"], ["c"]]),
         json!({"a": "1", "b": "abc", "c": [], "d": {}, "e": false}),
     ];
@@ -117,6 +126,8 @@ fn edge_case(idx: u64) -> (String, Value, Option<String>) {
     (expr, doc, a.map(|n| format!("@[{}]", n)))
 }
 
+const PATS: [&str; 14] = ["@", "@, @", "&@, @", "@, &@", "@[0]", "@[0], @[1]", "k", "`1e308`", "@, `1e308`", "", "@, @, @", "'s', @", "@, 's'", "&k, @"];
+
 const EDGE: [Option<i64>; 11] = [
     None,
     Some(0),
@@ -135,7 +146,10 @@ const EDGE: [Option<i64>; 11] = [
 /// to name the culprit after a worker died.
 pub fn run_one(args: &Args) {
     let id: u64 = args.kv.get("index").and_then(|v| v.parse().ok()).unwrap_or(0);
-    let (expr, family, doc): (String, &str, Option<Value>) = if id >= 10_000_000_000 {
+    let (expr, family, doc): (String, &str, Option<Value>) = if id >= 20_000_000_000 {
+        let fi = (id - 20_000_000_000 - 1) as usize;
+        (format!("{}({})", refimpl::eval::BUILTIN_NAMES[fi / PATS.len()], PATS[fi % PATS.len()]), "builtin-on-hostile-doc", None)
+    } else if id >= 10_000_000_000 {
         let (e, d, _) = edge_case(id - 10_000_000_000);
         (e, "edge-slice", Some(d))
     } else {
@@ -254,6 +268,27 @@ pub fn run(args: &Args) {
         idx += args.shards;
     }
     rep.extra.insert("edge_slice_grid".into(), json!(total_edge));
+
+    // (1b) every built-in x argument patterns x every hostile document
+    let mut fi = 0u64;
+    for f in refimpl::eval::BUILTIN_NAMES.iter() {
+        for p in PATS.iter() {
+            fi += 1;
+            if fi % args.shards != args.shard {
+                continue;
+            }
+            let case_id = 20_000_000_000 + fi;
+            if skip.contains(&case_id) {
+                continue;
+            }
+            mark("B", case_id);
+            let expr = format!("{}({})", f, p);
+            let mut r2 = Rng::new(fi);
+            let n = docs.len();
+            run_case(&mut rep, &expr, &docs, "builtin-on-hostile-doc", n, &mut r2);
+            mark("E", case_id);
+        }
+    }
 
     // (2) random hostile families
     for i in 0..args.n {
